@@ -144,7 +144,25 @@ def mk_pred(p: dict):
     if k == "get":
         key = p["key"]
         return lambda ctx: (ctx or {}).get(key)
+    if k == "reenter":
+        # a predicate that consults the same checker about another triple under ANOTHER context before answering for its own:
+        # a check is a pure function of (store, rules, registry, triple, context), so the nested check may not disturb the outer one
+        key, (qs, qr, qo), ctx2 = p["key"], p["query"], p["ctx"]
+
+        def pred(ctx):
+            chk = (holder or {}).get("chk")
+            if chk is not None and not holder.get("busy"):
+                holder["busy"] = True
+                try:
+                    holder.setdefault("inner", []).append(chk.check(qs, qr, qo, context=ctx2))
+                finally:
+                    holder["busy"] = False
+            return (ctx or {}).get(key)
+        return pred
     raise ValueError(p)
+
+
+holder: dict = {}
 
 
 def build(cfg: dict):
@@ -153,8 +171,11 @@ def build(cfg: dict):
         store.add(s, r, o, caveat=c)
     rules = {ty: {rel: mk_expr(e) for rel, e in rels} for ty, rels in cfg["rules"]}
     reg = {name: mk_pred(p) for name, p in cfg["registry"]}
-    return L.LocalRelationshipChecker(store, rules=rules, caveat_registry=reg, max_depth=cfg["max_depth"],
-                                      max_nodes=cfg["max_nodes"], deadline_ms=cfg["deadline"]["ms"])
+    chk = L.LocalRelationshipChecker(store, rules=rules, caveat_registry=reg, max_depth=cfg["max_depth"],
+                                     max_nodes=cfg["max_nodes"], deadline_ms=cfg["deadline"]["ms"])
+    holder.clear()
+    holder["chk"] = chk
+    return chk
 
 
 def run_impl(cfg: dict, queries: list, batch: list | None, guard_s: float = 20):
@@ -204,7 +225,9 @@ def driver_cmd(cfg: dict, queries: list, observed: list | None, batch: list | No
         dl = {"clock": [str(x) for x in d["clock"]], "deadline_ms": str(d["ms"])}
     else:
         dl = {"step": str(FakeTime.STEP), "deadline_ms": str(d["ms"])}
-    cmd = {"cmd": "rebac", "tuples": cfg["tuples"], "rules": cfg["rules"], "registry": cfg["registry"],
+    # for the model a re-entrant predicate is the plain predicate it ends with (the nested check has no effect on the outer one)
+    registry = [[n, ({"k": "get", "key": q["key"]} if q.get("k") == "reenter" else q)] for n, q in cfg["registry"]]
+    cmd = {"cmd": "rebac", "tuples": cfg["tuples"], "rules": cfg["rules"], "registry": registry,
            "context": None if cfg["context"] is None else proto.enc(cfg["context"]),
            "max_depth": str(cfg["max_depth"]), "max_nodes": str(cfg["max_nodes"]), "deadline": dl,
            "queries": [list(q) for q in queries]}
@@ -458,6 +481,33 @@ def rand_cfg(r: random.Random):
     return cfg, queries, batch
 
 
+def reentrant_scope(run: lib.Run, scale: int = 1):
+    """random configurations in which one caveat's predicate runs a nested check on the same checker under another context"""
+    r = random.Random(run.seed * 15485867 + 1212)
+    n = (1500 if run.tier == "quick" else 20000) * scale
+    i = 0
+    while i < n:
+        cfg, queries, batch = rand_cfg(r)
+        used = sorted({t[3] for t in cfg["tuples"] if t[3] is not None})
+        if len(used) < 1 or cfg["deadline"]["mode"] != "linear":
+            continue
+        cfg["deadline"] = {"mode": "linear", "ms": NEVER_MS}     # the injected clock is shared by the nested check
+        i += 1
+        re_name = r.choice(used)
+        key, other = r.choice([("k", "j"), ("j", "k")])
+        reg = [[nm, pp] for nm, pp in cfg["registry"] if nm != re_name]
+        # the other caveats look at `other`, on which the two contexts disagree
+        reg = [[nm, ({"k": "get", "key": other} if r.random() < 0.7 else pp)] for nm, pp in reg]
+        for nm in used:
+            if nm != re_name and nm not in [x[0] for x in reg]:
+                reg.append([nm, {"k": "get", "key": other}])
+        inner_q = list(r.choice(queries))
+        reg.append([re_name, {"k": "reenter", "key": key, "query": inner_q, "ctx": {key: True, other: True}}])
+        cfg["registry"] = reg
+        cfg["context"] = {key: r.choice([True, True, False]), other: False}
+        yield f"RE#{i}", cfg, queries, batch
+
+
 def random_scope(run: lib.Run, scale: int = 1, stream: int = 0):
     r = random.Random(run.seed * 104729 + 12 + 7907 * stream)
     n = (8000 if run.tier == "quick" else 120000) * scale
@@ -690,12 +740,14 @@ def check(run: lib.Run, audit: dict) -> int:
                 "each unconditional or under one of two caveats × 6×6 registries (absent/true/false/raise/ctx[k]/ctx.get(k)) × 4 contexts; "
                 "B max_depth −1..3 × max_nodes 0..5 × deadline passing at read 0/1/2/3/never on 40 stores; each configuration asked 14 "
                 "triples individually and 8 in one batch_check.  random: graphs of ≤12 tuples (duplicates, caveats, odd ids), nested rules "
-                "of depth ≤3, random limits, monotone and scripted (non-monotone, equality-at-deadline) clocks.  A case = (configuration, "
+                "of depth ≤3, random limits, monotone and scripted (non-monotone, equality-at-deadline) clocks; re-entrant: random graphs in which "
+                "one caveat's predicate runs a nested check on the same checker under a context that flips the other caveats.  A case = (configuration, "
                 "query triple), distinct by content hash; non-trivial = the relation is derivable within max_depth or the model run hit a "
                 "node/time limit")
     run.exhaustive = run.tier == "thorough"
     run.assumptions = [
-        "caveat predicates are pure functions of the context (no state between calls); the model takes bool(pred(context)) as a table entry",
+        "caveat predicates are pure functions of the context (no state between calls); the model takes bool(pred(context)) as a table entry; "
+        "a predicate that itself calls check() is modelled as the plain predicate it ends with (checks do not interfere with one another)",
         "subjects, relations, resources, caveat names and rule keys are str; max_depth / max_nodes / deadline_ms are int",
         "the clock is injected by replacing the module attribute rbacx.rebac.local.time (the code reads time.perf_counter_ns()); "
         "the theorems quantify over every clock behaviour, the differential run exercises monotone linear clocks and scripted ones",
@@ -706,7 +758,7 @@ def check(run: lib.Run, audit: dict) -> int:
         raise lib.CheckError(f"Lean build/audit failed at {audit['stage']}: "
                              f"{audit.get('log') or audit.get('forbidden') or audit.get('bad_axioms')}")
     cov = LineCov()
-    run_cases(run, [small_scope(run), random_scope(run)], cov, cov_every=7)
+    run_cases(run, [small_scope(run), random_scope(run), reentrant_scope(run)], cov, cov_every=7)
     run.extra["anchored_line_coverage"] = cov.report()
     run.extra["clock_reads"] = CLOCK.reads
     violations = []
